@@ -73,7 +73,8 @@ class CrashTracer:
         self.last_hash = hs
         d = os.path.join(self.outdir, f's{len(self.states):03d}')
         shutil.copytree(self.watch, d)
-        self.states.append((d, self.nlines, where))
+        inodes = {os.path.relpath(p, self.watch): ino for p, _, _, ino in s}
+        self.states.append((d, self.nlines, where, inodes))
 
     def _local(self, frame, event, arg):
         if event == 'line':
@@ -111,7 +112,7 @@ def _read(p):
         return None
 
 
-def torn_variants(a_dir, b_dir, out_root, itemsizes, tag):
+def torn_variants(a_dir, b_dir, out_root, itemsizes, tag, ino_a=None, ino_b=None):
     """Directories that a torn write between state A and state B could leave.
     Yields (dir, description)."""
     names = set()
@@ -124,7 +125,10 @@ def torn_variants(a_dir, b_dir, out_root, itemsizes, tag):
         ca, cb = _read(os.path.join(a_dir, rel)), _read(os.path.join(b_dir, rel))
         if ca == cb:
             continue
+        if ino_a and ino_b and rel in ino_a and rel in ino_b and ino_a[rel] != ino_b[rel]:
+            continue            # another inode under the same name: the file was replaced atomically (rename)
         cuts = []
+        inplace = []
         if cb is None:
             continue            # unlink is atomic
         if ca is not None and len(cb) > len(ca) and cb.startswith(ca):
@@ -143,6 +147,14 @@ def torn_variants(a_dir, b_dir, out_root, itemsizes, tag):
                     cuts.append((nm, c))
             if ca is not None and len(ca) < L:
                 cuts.append(('prefix_old_length', len(ca)))
+            if ca and cb and not cb.startswith(ca) and not ca.startswith(cb):
+                # the file went from old content to new content *between two line events*, without a state in
+                # which it was empty: it was overwritten in place, so a torn write leaves a prefix of the new
+                # text followed by what was there before (only then is this a reachable state)
+                diffs = [k for k in range(min(len(ca), L)) if ca[k] != cb[k]]
+                for k in sorted({diffs[0] + 1, diffs[len(diffs) // 2] + 1, diffs[-1], (diffs[0] + diffs[-1]) // 2 + 1} if diffs else set()):
+                    if 0 < k < L:
+                        inplace.append((f'inplace_new{k}_old_tail', cb[:k] + ca[k:]))
         seen = set()
         for nm, c in cuts:
             if c in seen or c == len(cb) or (ca is not None and cb[:c] == ca):
@@ -154,6 +166,15 @@ def torn_variants(a_dir, b_dir, out_root, itemsizes, tag):
             with open(os.path.join(d, rel), 'wb') as f:
                 f.write(cb[:c])
             yield d, f'{rel}:{nm}@{c}'
+        for nm, content in inplace:
+            if content == ca or content == cb:
+                continue
+            d = os.path.join(out_root, f'{tag}-t{n:02d}')
+            n += 1
+            shutil.copytree(b_dir, d)
+            with open(os.path.join(d, rel), 'wb') as f:
+                f.write(content)
+            yield d, f'{rel}:{nm}'
 
 
 class _CrashMixin:
@@ -175,11 +196,12 @@ class _CrashMixin:
         tornroot = os.path.join(self.sb, '_torn')
         os.makedirs(tornroot, exist_ok=True)
         outcomes = {}
-        for si, (d, ln, where) in enumerate(states):
+        for si, (d, ln, where, inodes) in enumerate(states):
             self.crash_states += 1
             self.judge_one(d, legit, f'line_state:{where}', opname, outcomes)
             if si + 1 < len(states):
-                for td, desc in torn_variants(d, states[si + 1][0], tornroot, itemsizes, f's{si:03d}'):
+                for td, desc in torn_variants(d, states[si + 1][0], tornroot, itemsizes, f's{si:03d}',
+                                              inodes, states[si + 1][3]):
                     self.torn_states += 1
                     self.judge_one(td, legit, f'torn:{desc}', opname, outcomes)
                     shutil.rmtree(td, ignore_errors=True)
